@@ -34,7 +34,7 @@ PROPS = {
     },
     "C04": {
         "suites": [("apply", 300, 3000), ("proc", 100, 1000), ("kv", 100, 600)],
-        "title": "frontier monotonicity of apply_delta / cluster apply for every grammar-valid delta; fresh versions of local writes; copy invariant inductive; along every step of the global relation from every reachable state no copy's frontier decreases (removal only by liveness evaluation)",
+        "title": "frontier monotonicity of apply_delta / cluster apply for every grammar-valid delta; fresh versions of local writes; copy invariant inductive; along every step of the global relation from every reachable state no copy's frontier decreases (removal only by liveness evaluation) and no stored key version decreases unless the watermark strictly rose (keys disappear only as tombstones collected at or below the new watermark); every such step passes the C04 monitor",
     },
     "C05": {
         "suites": [("proc", 250, 2500)],
